@@ -262,6 +262,29 @@ def bracket_sweep(ctx, maxlen):
     ctx.count('bracket_sweep_strings', idx)
 
 
+def win_prefix_sweep(ctx, root):
+    """Drive / UNC / device-namespace prefixes whose host, share or device part holds a character that is special in regular
+    expressions, under the Windows-mode flag sets (deterministic: independent of the number of shards)."""
+    specials = '()[]{}|+?*.^$#&~- \\'
+    shapes = ['//{c}/a', '//a/{c}', '//{c}{c}/a/b', '//?/{c}:/x', '//?/UNC/{c}/a/b', '//./{c}/x', '{c}:/x', '//a{c}b/c{c}d/e', '//?/GLOBAL/{c}/x',
+              '//{c}/a/*', '//a/{c}/**/b', '\\\\\\\\{c}\\\\a\\\\b']
+    fsets = [('FORCEWIN',), ('FORCEWIN', 'CASE'), ('FORCEWIN', 'CASE', 'EXTMATCH'), ('FORCEWIN', 'IGNORECASE', 'GLOBSTAR'),
+             ('FORCEWIN', 'CASE', 'MATCHBASE'), ('FORCEWIN', 'CASE', 'NEGATE'), ('FORCEWIN', 'CASE', 'DOTMATCH', 'NODIR')]
+    idx = 0
+    for c in specials:
+        for sh in shapes:
+            text = sh.replace('{c}', c)
+            for fnames in fsets:
+                idx += 1
+                if not ctx.mine(idx):
+                    continue
+                for as_bytes in (False, True):
+                    with ctx.case(label=(text, fnames, as_bytes)):
+                        exercise(ctx, text, fnames, root, as_bytes)
+                    ctx.mark_nontrivial((text, fnames, as_bytes))
+                ctx.count('win_prefix_strings')
+
+
 def strings(alpha, n):
     for tup in itertools.product(alpha, repeat=n):
         yield ''.join(tup)
@@ -292,45 +315,55 @@ def run(ctx):
         else:
             ctx.count('malformed_semantics_checked', 0)
         bracket_sweep(ctx, 5 if quick else 6)
-        idx = 0
-        plan = [(ALPHA_A, 4 if quick else 5, 100), (ALPHA_B, 3 if quick else 4, 100)]
-        if not quick:
-            plan.append((ALPHA_A, 6, 8))
-        for alpha, maxlen, pct in plan:
-            for n in range(1 if pct == 100 else maxlen, maxlen + 1):
-                for text in strings(alpha, n):
-                    idx += 1
-                    if pct < 100 and (idx * 2654435761) % 100 >= pct:
-                        continue
-                    if not ctx.mine(idx):
-                        continue
-                    if ctx.out_of_time():
-                        break
-                    one_string(ctx, idx, text, root)
-        # random long strings, RAWCHARS pieces, nested groups (bounded nesting 8) and token mutations of valid patterns
-        k = 0
-        limit = 150 if quick else 10 ** 9
-        pieces = list(ALPHA_A + ALPHA_B) + ['\\x41', '\\x4', '\\101', '\\u0041', '\\U00000041', '\\U00110000', '\\N{DIGIT ONE}',
-                                          '\\N{', '\\N{NOPE}', '@(', '!(', '*(', '+(', '?(', '[!', '[:alpha:]', '[[:alpha:]]',
-                                          '**', '***', '//', '{a,b}', '{1..3}', '~', '-', 'b', '.', '..',
-                                          # text that looks like regular-expression syntax must stay plain text
-                                          '(?#)', '[(?#)]', '(?:', '(?i)', '(?=a)', '\\Z', '$', '^', '[^', '#', '(?P<n>', '\\1', '{2}', '+?', '[a&&b]', '[a||b]', '[a--b]', '[~~a]']
-        while k < limit and not ctx.out_of_time():
-            k += 1
-            rng = ctx.rng_for('rand', ctx.shard, k)
-            if k % 3 == 0:
-                toks = gen.rand_tokens(rng, maxtok=rng.randint(1, 7), depth=rng.randint(0, 3), alpha='ab./')
-                text = gen.ser(toks)
-                for _ in range(rng.randint(1, 3)):
-                    text = mutate_tokens(rng, text)
-            elif k % 3 == 1:
-                depth = rng.randint(1, 8)
-                text = ''.join(rng.choice('@!*+?') + '(' + rng.choice(['', 'a', 'a|', '*']) for _ in range(depth))
-                text += rng.choice(['', 'a', '*', '/']) + ')' * rng.randint(0, depth) + rng.choice(['', 'b', '*', '@(a)'])
-            else:
-                text = ''.join(rng.choice(pieces) for _ in range(rng.randint(1, 14)))[:40]
-            one_string(ctx, 10 ** 7 + k, text, root)
-        ctx.count('random_strings', k)
+        win_prefix_sweep(ctx, root)
+
+        def exhaustive():
+            idx = 0
+            plan = [(ALPHA_A, 4 if quick else 5, 100), (ALPHA_B, 3 if quick else 4, 100)]
+            if not quick:
+                plan.append((ALPHA_A, 6, 8))
+            for alpha, maxlen, pct in plan:
+                for n in range(1 if pct == 100 else maxlen, maxlen + 1):
+                    for text in strings(alpha, n):
+                        idx += 1
+                        if pct < 100 and (idx * 2654435761) % 100 >= pct:
+                            continue
+                        if not ctx.mine(idx):
+                            continue
+                        if ctx.out_of_time():
+                            break
+                        one_string(ctx, idx, text, root)
+
+        def random_strings():
+            # random long strings, RAWCHARS pieces, nested groups (bounded nesting 8) and token mutations of valid patterns
+            k = 0
+            limit = 150 if quick else 10 ** 9
+            pieces = list(ALPHA_A + ALPHA_B) + ['\\x41', '\\x4', '\\101', '\\u0041', '\\U00000041', '\\U00110000', '\\N{DIGIT ONE}',
+                                              '\\N{', '\\N{NOPE}', '@(', '!(', '*(', '+(', '?(', '[!', '[:alpha:]', '[[:alpha:]]',
+                                              '**', '***', '//', '{a,b}', '{1..3}', '~', '-', 'b', '.', '..',
+                                              # text that looks like regular-expression syntax must stay plain text
+                                              '(?#)', '[(?#)]', '(?:', '(?i)', '(?=a)', '\\Z', '$', '^', '[^', '#', '(?P<n>', '\\1', '{2}', '+?', '[a&&b]', '[a||b]', '[a--b]', '[~~a]']
+            while k < limit and not ctx.out_of_time():
+                k += 1
+                rng = ctx.rng_for('rand', ctx.shard, k)
+                if k % 3 == 0:
+                    toks = gen.rand_tokens(rng, maxtok=rng.randint(1, 7), depth=rng.randint(0, 3), alpha='ab./')
+                    text = gen.ser(toks)
+                    for _ in range(rng.randint(1, 3)):
+                        text = mutate_tokens(rng, text)
+                elif k % 3 == 1:
+                    depth = rng.randint(1, 8)
+                    text = ''.join(rng.choice('@!*+?') + '(' + rng.choice(['', 'a', 'a|', '*']) for _ in range(depth))
+                    text += rng.choice(['', 'a', '*', '/']) + ')' * rng.randint(0, depth) + rng.choice(['', 'b', '*', '@(a)'])
+                else:
+                    text = ''.join(rng.choice(pieces) for _ in range(rng.randint(1, 14)))[:40]
+                one_string(ctx, 10 ** 7 + k, text, root)
+            ctx.count('random_strings', k)
+
+        # the bounded parts first: in the quick tier the random strings are a fixed number per shard, the enumeration takes
+        # what is left of the budget; in the thorough tier the random strings run until the budget ends
+        for part in ((random_strings, exhaustive) if quick else (exhaustive, random_strings)):
+            part()
     finally:
         shutil.rmtree(root[:-len('/w/x/y/root')], ignore_errors=True)
 
